@@ -108,6 +108,8 @@ def sig_src(sig):
             parts.append(name)
         elif kind == "default":
             parts.append("%s=%r" % (name, default))
+        elif kind == "cdefault":
+            parts.append("%s=zctx" % name)  # a default that reads a context variable mentioned nowhere else
         elif kind == "rdefault":
             parts.append("%s=raiser()" % name)  # a default whose evaluation may raise (when the def is DEFINED)
         elif kind == "varargs":
@@ -332,7 +334,7 @@ class Model:
         return self.invoke(d, defscope, pos, kw, caller)
 
     def invoke(self, d, defscope, pos, kw, caller):
-        sig = inspect.signature(eval("lambda %s: None" % sig_src(d["sig"]), {"raiser": lambda: "rf"}))
+        sig = inspect.signature(eval("lambda %s: None" % sig_src(d["sig"]), {"raiser": lambda: "rf", "zctx": self.context.get("zctx")}))
         ba = sig.bind(*pos, **kw)  # TypeError for a wrong call: as Python
         ba.apply_defaults()
         local = dict(ba.arguments)
